@@ -61,6 +61,44 @@ Proof.
         (conj commitment_type_string_readable (conj gen_bid_prefix gen_commit_prefix)))))))))))).
 Qed.
 
+(* --- the order of the append chain, from the source ------------------------------------------ *)
+Lemma data_chain_order :
+  map classify_item c03_bid_data_chain = map Some bid_item_order /\
+  forallb appends_to_data (tl c03_bid_data_chain) = true /\
+  map classify_item c03_commit_data_chain = map Some commitment_item_order /\
+  forallb appends_to_data (tl c03_commit_data_chain) = true.
+Proof. vm_compute. repeat split. Qed.
+
+Lemma bid_data_in_order K b A :
+  bid_data K b A = concat (map (item_bytes K c03_bid_strings b A) bid_item_order).
+Proof.
+  unfold bid_data, bid_item_order. cbn [map concat item_bytes]. rewrite app_nil_r, <- !app_assoc. reflexivity.
+Qed.
+
+Lemma commitment_data_in_order K b A :
+  commitment_data K b A = concat (map (item_bytes K c03_commit_strings b A) commitment_item_order).
+Proof.
+  unfold commitment_data, commitment_item_order, bid_item_order. cbn [map concat item_bytes app].
+  rewrite app_nil_r, <- !app_assoc. reflexivity.
+Qed.
+
+Lemma field_order_facts :
+  (map classify_item c03_bid_data_chain = map Some bid_item_order /\
+   forallb appends_to_data (tl c03_bid_data_chain) = true /\
+   map classify_item c03_commit_data_chain = map Some commitment_item_order /\
+   forallb appends_to_data (tl c03_commit_data_chain) = true) /\
+  (forall K b A, bid_hash_tail K b A =
+     K (lit_prefix c03_bid_strings ++ domain_separator_of K c03_bid_strings ++
+        K (concat (map (item_bytes K c03_bid_strings b A) bid_item_order)))) /\
+  (forall K b A, commitment_hash_tail K b A =
+     K (lit_prefix c03_commit_strings ++ domain_separator_of K c03_commit_strings ++
+        K (concat (map (item_bytes K c03_commit_strings b A) commitment_item_order)))).
+Proof.
+  split; [exact data_chain_order|]. split.
+  - intros K b A. rewrite <- bid_data_in_order. reflexivity.
+  - intros K b A. rewrite <- commitment_data_in_order. reflexivity.
+Qed.
+
 (* --- U256Bytes ------------------------------------------------------------------------- *)
 Lemma two256_pos : (0 < two256)%Z.
 Proof. unfold two256. apply Z.pow_pos_nonneg; lia. Qed.
